@@ -401,6 +401,7 @@ def run_output_units():
                 u = munit.MUnit(uname, copy.deepcopy(f["body"]), variables, c, consts, methods, enums,
                                 on_exit={"ret": post, "fall": post}, active=act)
                 u.buffers = {"ptr_": ("i64", "reserved_")}
+                u.track_swaps = True
                 return u
             u, _ = vcgen.houdini(mk, timeout_ms=3000)
             _finish(res, u, t0)
@@ -471,7 +472,7 @@ def run_step_units():
         for t in then:
             if t[0] == "if" and "is_segment_done" in str(t[1]):
                 seg = t[2]
-        where = "line %s" % s[-1]
+        where = "after the instruction switch" if n == len(uniq) - 1 else "inside an instruction case (#%d)" % n
         ok = seg is not None and _strip_lines(seg) == epilogue
         res["obligations"].append({"id": "%s:F.step_equiv#%d" % (res["unit"], n), "unit": res["unit"], "kind": "F.step_equiv",
                                    "label": "step", "line": s[-1],
